@@ -27,11 +27,12 @@ add("C01", "chain", "model_checking",
     "stateless deviation-bounded exhaustive exploration of block histories on the real Index, lock-step BIP reference model",
     "Every history with <=K deviations over the sat-suite alphabet (17 transaction templates x 9 coinbase shapes, 2 slots + coinbase "
     "per block) is executed on the real Index::update through the node simulator; after every block Index::list of every unspent "
-    "output and of the lost-sats pseudo-output must equal the ranges produced by an independent implementation of the BIP algorithm.",
+    "output and of the lost-sats pseudo-output must equal the ranges produced by an independent implementation of the BIP algorithm. "
+    "Run under two index configurations: sats+addresses+inscriptions and sats alone (no inscription index).",
     CHAIN_NOTE, "DESIGN.md sections 4 (E1) and 5 C01")
 add("C02", "chain", "model_checking",
     "stateless deviation-bounded exhaustive exploration of block histories, whole-index partition audit on every reached state",
-    "Same executions as C01; on every reached state the ranges of all outputs are audited to partition exactly the mined sats minus "
+    "Same executions as C01 (both index configurations); on every reached state the ranges of all outputs are audited to partition exactly the mined sats minus "
     "destroyed ones, to add up to each output's value, and find / find_range / rare-sat table are probed at every range boundary.",
     CHAIN_NOTE, "DESIGN.md sections 4 (E1) and 5 C02")
 add("C17", "chain", "model_checking",
@@ -41,9 +42,10 @@ add("C17", "chain", "model_checking",
     CHAIN_NOTE, "DESIGN.md sections 4 (E1) and 5 C17")
 
 INSC_TECH = "stateless deviation-bounded exhaustive exploration of block histories on the real Index, sat-based reference model + whole-index audit on every reached state"
-INSC_SPACE = ("Every 2-block history with <=K deviations over the inscription-suite alphabet (57 templates: reveals x envelope kinds x pointers x "
+INSC_SPACE = ("Every 2-block history with <=K deviations over the inscription-suite alphabet (62 templates: reveals x envelope kinds x pointers x "
               "parent references, reinscriptions, transfers; 6 coinbase shapes) at two chain positions (cursed era, straddling the jubilee) runs on the "
-              "real Index with update() after every block, in lock-step with a reference model that binds each inscription to a sat and lets the BIP sat model move it. ")
+              "real Index with update() after every block, in lock-step with a reference model that binds each inscription to a sat and lets the BIP sat model move it; "
+              "plus 8 hand-picked 3-block histories of 5-8 deviations each at both positions under both indexing modes (update() per block / one update() for all blocks). ")
 add("C03", "chain", "model_checking", INSC_TECH,
     INSC_SPACE + "Oracle: every inscription's reported satpoint equals the reference location of its sat (including the lost-sats pseudo-output), "
     "Index::find of its sat agrees, burned / lost / unbound outcomes carry the stated charms and locations.", CHAIN_NOTE, "DESIGN.md section 5 C03")
@@ -60,9 +62,10 @@ add("C07", "chain", "model_checking", INSC_TECH,
     INSC_SPACE + "Oracle: recorded parents are older, not repeated, named by the envelope and among the inscriptions spent or revealed by the reveal "
     "transaction; the children table is the exact inverse; a visible collection's latest child is its newest child.", CHAIN_NOTE, "DESIGN.md section 5 C07")
 RUNE_TECH = "stateless deviation-bounded exhaustive exploration of block histories on the real Index plus batched single-transaction products, reference model written from the runes specification"
-RUNE_SPACE = ("Every history with <=K deviations over the rune-suite alphabet (55 templates: etchings x name kinds x commitment kinds x terms, cenotaphs, "
+RUNE_SPACE = ("Every history with <=K deviations over the rune-suite alphabet (62 templates: etchings x name kinds x commitment kinds x terms, cenotaphs, "
               "mints, edict / pointer transfers; 4 coinbase shapes) after a prefix preparing commit outputs with 5 and 6 confirmations runs on the real Index "
-              "in lock-step with a reference model written from docs/src/runes/specification.md. ")
+              "in lock-step with a reference model written from docs/src/runes/specification.md; plus 6 hand-picked 3-block histories of 5-8 deviations under both indexing "
+              "modes (update() per block / one update() for all blocks). ")
 add("C08", "chain", "model_checking", RUNE_TECH,
     RUNE_SPACE + "Oracle on every state: per rune balances + burned = premine + mints x amount; no zero balance, unknown rune, OP_RETURN or spent output in the balance table. "
     "Also evaluated on the batched allocation product and mint matrix.", CHAIN_NOTE, "DESIGN.md section 5 C08")
@@ -70,7 +73,7 @@ add("C09", "chain", "model_checking", RUNE_TECH,
     RUNE_SPACE + "Plus a batched product block of thousands of independent transactions = input balances x output layouts x edict lists x pointer. "
     "Oracle: the balance table and every burned total equal the reference allocation.", CHAIN_NOTE, "DESIGN.md section 5 C09")
 add("C10", "chain", "model_checking", RUNE_TECH,
-    RUNE_SPACE + "Plus a batched mint matrix: every subset of the six terms fields with values on window edges x a mint attempt before/after the etching "
+    RUNE_SPACE + "Plus a batched mint matrix: every subset of the six terms fields with values on window edges x values at the ends of the integer range (0, etch height, u64::MAX, u128::MAX) x a mint attempt before/after the etching "
     "in its block and at each following height (cenotaph mints, two attempts in one block). Oracle: mint counts equal the reference, never above the cap.",
     CHAIN_NOTE, "DESIGN.md section 5 C10")
 add("C11", "chain", "model_checking", RUNE_TECH,
